@@ -1,0 +1,185 @@
+//! Observation hooks for external runtime monitors.
+//!
+//! Compiled only with the cargo feature `verif-hooks` (off by default). With the feature off
+//! this module does not exist and no call site is compiled in.
+//!
+//! A monitor installs a per-thread sink with [`install`]; while a sink is installed the hooked
+//! evaluation steps report plain-data [`Event`]s to it. Nodes are identified by their address
+//! (`&T as *const T as usize`) so that a monitor can map them back to locations of the document it
+//! handed in, independently of the path strings the engine computes.
+//!
+//! The call sites use a re-entrancy trick so that they only *add* lines: the hooked function
+//! checks [`armed`]; if armed it calls itself again through [`reenter`] (which makes the next
+//! `armed()` answer `false` exactly once), emits the event and returns.
+
+use crate::query::queryable::Queryable;
+use crate::query::state::{Data, State};
+use std::cell::{Cell, RefCell};
+
+/// A JSON value as seen through the `Queryable` accessors.
+#[derive(Debug, Clone, PartialEq)]
+pub enum Json {
+    Null,
+    Bool(bool),
+    Int(i64),
+    Float(f64),
+    Str(String),
+    Arr(Vec<Json>),
+    Obj(Vec<(String, Json)>),
+    /// None of the accessors answered (should not happen for a faithful implementation).
+    Opaque(String),
+}
+
+/// What a comparison / function sees as one operand or produces as its result.
+#[derive(Debug, Clone, PartialEq)]
+pub enum Operand {
+    Nothing,
+    /// A computed value (literal, function result).
+    Value(Json),
+    /// One node of the document: address and its value.
+    Node(usize, Json),
+    /// A node list (possibly empty).
+    Nodes(Vec<(usize, Json)>),
+}
+
+#[derive(Debug, Clone, PartialEq)]
+pub enum Event {
+    /// One application of a segment to an evaluation state.
+    Segment {
+        text: String,
+        /// `None` when the state was not a node list (value / nothing)
+        input: Option<Vec<(usize, String)>>,
+        output: Option<Vec<(usize, String)>>,
+    },
+    /// One per-child decision of a filter selector.
+    FilterItem {
+        text: String,
+        item: usize,
+        verdict: bool,
+    },
+    /// One comparison as evaluated.
+    Cmp {
+        op: &'static str,
+        lhs: Operand,
+        rhs: Operand,
+        verdict: Option<bool>,
+    },
+    /// One function application.
+    Func {
+        name: String,
+        args: Vec<Operand>,
+        result: Operand,
+    },
+}
+
+thread_local! {
+    static SINK: RefCell<Option<Box<dyn FnMut(Event)>>> = RefCell::new(None);
+    static SKIP: Cell<bool> = Cell::new(false);
+    static MUTE: Cell<u32> = Cell::new(0);
+    static ON: Cell<bool> = Cell::new(false);
+}
+
+/// Installs the sink of the calling thread (replacing a previous one).
+pub fn install(sink: Box<dyn FnMut(Event)>) {
+    SINK.with(|s| *s.borrow_mut() = Some(sink));
+    ON.with(|o| o.set(true));
+}
+
+/// Removes the sink of the calling thread and returns it.
+pub fn uninstall() -> Option<Box<dyn FnMut(Event)>> {
+    ON.with(|o| o.set(false));
+    SKIP.with(|s| s.set(false));
+    MUTE.with(|m| m.set(0));
+    SINK.with(|s| s.borrow_mut().take())
+}
+
+/// True when the calling hook site should report. Consumes the one-shot skip flag.
+pub fn armed() -> bool {
+    if !ON.with(|o| o.get()) {
+        return false;
+    }
+    if MUTE.with(|m| m.get()) > 0 {
+        return false;
+    }
+    if SKIP.with(|s| s.replace(false)) {
+        return false;
+    }
+    true
+}
+
+/// Runs `f` with the next `armed()` check answering `false` (the hooked function's own re-entry).
+pub fn reenter<R>(f: impl FnOnce() -> R) -> R {
+    SKIP.with(|s| s.set(true));
+    let r = f();
+    SKIP.with(|s| s.set(false));
+    r
+}
+
+/// Runs `f` with all hooks silent (used for the extra evaluations a hook needs for its event).
+pub fn muted<R>(f: impl FnOnce() -> R) -> R {
+    MUTE.with(|m| m.set(m.get() + 1));
+    let r = f();
+    MUTE.with(|m| m.set(m.get().saturating_sub(1)));
+    r
+}
+
+pub fn emit(ev: Event) {
+    let taken = SINK.with(|s| s.borrow_mut().take());
+    if let Some(mut f) = taken {
+        muted(|| f(ev));
+        SINK.with(|s| {
+            let mut slot = s.borrow_mut();
+            if slot.is_none() {
+                *slot = Some(f);
+            }
+        });
+    }
+}
+
+pub fn addr<T>(r: &T) -> usize {
+    r as *const T as usize
+}
+
+pub fn json<T: Queryable>(v: &T) -> Json {
+    if let Some(a) = v.as_array() {
+        Json::Arr(a.iter().map(json).collect())
+    } else if let Some(o) = v.as_object() {
+        Json::Obj(o.into_iter().map(|(k, v)| (k.clone(), json(v))).collect())
+    } else if let Some(s) = v.as_str() {
+        Json::Str(s.to_string())
+    } else if let Some(b) = v.as_bool() {
+        Json::Bool(b)
+    } else if let Some(i) = v.as_i64() {
+        Json::Int(i)
+    } else if let Some(f) = v.as_f64() {
+        Json::Float(f)
+    } else if *v == T::null() {
+        Json::Null
+    } else {
+        Json::Opaque(format!("{:?}", v))
+    }
+}
+
+pub fn nodes<T: Queryable>(state: &State<T>) -> Option<Vec<(usize, String)>> {
+    match &state.data {
+        Data::Ref(p) => Some(vec![(addr(p.inner), p.path.clone())]),
+        Data::Refs(ps) => Some(ps.iter().map(|p| (addr(p.inner), p.path.clone())).collect()),
+        _ => None,
+    }
+}
+
+pub fn operand<T: Queryable>(state: &State<T>) -> Operand {
+    match &state.data {
+        Data::Ref(p) => Operand::Node(addr(p.inner), json(p.inner)),
+        Data::Refs(ps) => Operand::Nodes(ps.iter().map(|p| (addr(p.inner), json(p.inner))).collect()),
+        Data::Value(v) => Operand::Value(json(v)),
+        Data::Nothing => Operand::Nothing,
+    }
+}
+
+pub fn verdict<T: Queryable>(state: &State<T>) -> Option<bool> {
+    match &state.data {
+        Data::Value(v) => v.as_bool(),
+        _ => None,
+    }
+}
